@@ -52,14 +52,15 @@ def main():
     shutil.copy(f"{out}/demo_test.go", destabs)
     pkg = "./" + os.path.dirname(dest)
     runre = "^(" + "|".join(tests) + ")$"
+    xf = os.environ.get("SEED_TESTFLAGS", "")
     try:
-        rc1, o1 = sh(f"go test -vet=off -count=1 -timeout 10m -run '{runre}' {pkg} 2>&1 | tail -60", mod)
+        rc1, o1 = sh(f"go test {xf} -vet=off -count=1 -timeout 10m -run '{runre}' {pkg} 2>&1 | tail -60", mod)
         failed_with = ("--- FAIL" in o1) or ("FAIL" in o1 and "ok " not in o1) or "panic:" in o1
-        ran.append(f"with change: go test -run '{runre}' {pkg} -> " + ("FAIL (as required)" if failed_with else "passed (NOT a demonstration)"))
+        ran.append(f"with change: go test {xf} -run '{runre}' {pkg} -> " + ("FAIL (as required)" if failed_with else "passed (NOT a demonstration)"))
         rcr, orv = sh(f"git apply -R --exclude='*demo_test.go' - <<'EOF'\n{patch}\nEOF", wt)
         if rcr != 0:
             print("cannot revert:", orv); sys.exit(1)
-        rc2, o2 = sh(f"go test -vet=off -count=1 -timeout 10m -run '{runre}' {pkg} 2>&1 | tail -30", mod)
+        rc2, o2 = sh(f"go test {xf} -vet=off -count=1 -timeout 10m -run '{runre}' {pkg} 2>&1 | tail -30", mod)
         passed_without = rc2 == 0 and "FAIL" not in o2 and "ok " in o2
         ran.append(f"without change: same command -> " + ("ok (as required)" if passed_without else "FAILED"))
     finally:
